@@ -1,10 +1,9 @@
 SPECIFICATION Spec
 CONSTANTS
-  Hays <- MCHays
-  Needles <- MCNeedles
-  AB_H = 7
-  AB_N = 4
-  U_H = 4
+  Pairs <- MCPairs
+  AB_H = 8
+  AB_N = 5
+  U_H = 5
   RAW_H = 4
   RAW_N = 2
   U_N = 2
